@@ -193,6 +193,11 @@ impl Table {
         })
     }
 
+    /// `bucket(key)` then `KBucketRef::contains(d)` for an arbitrary distance `d`.
+    pub fn bucket_contains(&mut self, key: &KeyBytes, d: &Distance) -> Option<bool> {
+        self.0.bucket(key).map(|b| b.contains(d))
+    }
+
     pub fn closest_keys(&mut self, target: &KeyBytes) -> Vec<KeyBytes> {
         self.0.closest_keys(target).collect()
     }
